@@ -140,6 +140,20 @@ func (w *world) put(p, kind string, ver int) bool {
 	return true
 }
 
+// putLink adds a symbolic link to a directory of the world that is NOT in the link area: the way a
+// plugin root (or one of its ancestors) is reached through a link. The target may itself be a link.
+func (w *world) putLink(p, target string) bool {
+	p, target = path.Clean(p), path.Clean(target)
+	if _, ok := w.nodes[p]; ok || p == "/" {
+		return false
+	}
+	if !w.dirAll(path.Dir(p)) {
+		return false
+	}
+	w.nodes[p] = Node{Path: p, Kind: "symdir", Target: target}
+	return true
+}
+
 func (w *world) list() []Node {
 	out := make([]Node, 0, len(w.nodes))
 	for _, n := range w.nodes {
@@ -262,6 +276,12 @@ func script(marker, metaName string, ver int) []byte {
 }
 
 func (e *env) build(caseDir, marker string, in Input) error {
+	dirs := map[string]bool{}
+	for _, n := range in.FS {
+		if n.Kind == "dir" || n.Kind == "symdir" {
+			dirs[n.Path] = true
+		}
+	}
 	for _, n := range in.FS {
 		p := caseDir + n.Path
 		var err error
@@ -273,8 +293,12 @@ func (e *env) build(caseDir, marker string, in Input) error {
 		case "file":
 			err = os.WriteFile(p, []byte(fmt.Sprintf("data-%d\n", n.Ver)), 0o644)
 		case "symdir", "symfile", "symexec", "symnone":
-			if !strings.HasPrefix(n.Target, "/outside/") {
+			// links point into the link area - or (a linked plugin root) to a directory / directory link of the world
+			if !strings.HasPrefix(n.Target, "/outside/") && !(n.Kind == "symdir" && dirs[n.Target] && path.Clean(n.Target) == n.Target) {
 				err = fmt.Errorf("link %q with target %q outside the link area", n.Path, n.Target)
+			} else if n.Kind == "symdir" && path.Dir(n.Target) == path.Dir(n.Path) && !strings.HasPrefix(n.Target, "/outside/") {
+				// a link next to its target is made the way `ln -s plugins.d plugins` makes it: with a relative text
+				err = os.Symlink(path.Base(n.Target), p)
 			} else {
 				err = os.Symlink(caseDir+n.Target, p)
 			}
@@ -308,6 +332,24 @@ func abstract(sandbox, caseDir, p string) string {
 		return "^" + strings.TrimPrefix(p, sandbox)
 	}
 	return "^^" + p
+}
+
+// physical names the file a script was started as by the directory it really lies in: the symbolic
+// links of its directory part are resolved by the kernel (the longest part that still exists), the last
+// component - possibly a link to an executable, which "runs under its own path" - is kept. Without
+// links on the way this is the identity.
+func physical(p string) string {
+	p = filepath.Clean(p)
+	base, cur, rest := filepath.Base(p), filepath.Dir(p), ""
+	for {
+		if r, err := filepath.EvalSymlinks(cur); err == nil {
+			return filepath.Join(r, rest, base)
+		}
+		if cur == "/" || cur == "." {
+			return p
+		}
+		rest, cur = filepath.Join(filepath.Base(cur), rest), filepath.Dir(cur)
+	}
 }
 
 func snapshot(sandbox, caseDir string) (map[string]entry, error) {
@@ -367,7 +409,16 @@ func climbs(name string) int {
 
 // safe: no reading of the name leaves the sandbox (it stays at least one level below its top).
 func safe(in Input, name string) bool {
-	depth := len(strings.Split(strings.Trim(absRoot(in.Cwd, in.Root), "/"), "/"))
+	ar := absRoot(in.Cwd, in.Root)
+	depth := len(strings.Split(strings.Trim(ar, "/"), "/"))
+	// a root reached through links: the kernel climbs from the directory the links lead to
+	for _, n := range in.FS {
+		if n.Target != "" && (ar == n.Path || strings.HasPrefix(ar, n.Path+"/") || !strings.HasPrefix(n.Target, "/outside/")) {
+			if d := len(strings.Split(strings.Trim(n.Target, "/"), "/")); d < depth {
+				depth = d
+			}
+		}
+	}
 	return climbs(name)+climbs(in.Root) < depth+jailDepth-1
 }
 
@@ -715,7 +766,7 @@ func (e *env) execCase(k int, j *job) (o Obs, herr error) {
 			if !filepath.IsAbs(arg0) {
 				arg0 = filepath.Join(pwd, arg0)
 			}
-			a := abstract(sandbox, caseDir, filepath.Clean(arg0))
+			a := abstract(sandbox, caseDir, physical(arg0))
 			if !seen[a] {
 				seen[a] = true
 				o.Executed = append(o.Executed, a)
@@ -1388,18 +1439,184 @@ func (e *env) concurrentCases(full bool) error {
 	return nil
 }
 
-func (e *env) listCases() error {
-	entries := [][]spec{
-		{},
-		{{"one/notation-one", "exec", 1}},
-		{{"one/notation-one", "exec", 1}, {"two", "dir", 0}, {"a.file", "file", 1}, {"notation-loose", "exec", 1}},
-		{{"real", "dir", 0}, {"linkdir", "symdir", 0}, {"linkfile", "symfile", 0}, {"zfile", "file", 1}},
-		{{"deep/inner/notation-inner", "exec", 1}, {"deep/notation-deep", "exec", 1}, {"linkdir", "symdir", 0}},
-		{{"..a", "dir", 0}, {"...", "dir", 0}, {"a b", "dir", 0}, {"a\\b", "dir", 0}, {"\u65e5\u672c", "dir", 0}, {"-", "dir", 0}, {" ", "dir", 0}},
-		{{"B", "dir", 0}, {"a", "dir", 0}, {"C/x/y", "dir", 0}, {"b", "symdir", 0}, {"A", "file", 1}},
+// what a plugin root may hold besides the installed plugin "good" (paths relative to the root)
+var listEntries = [][]spec{
+	{},
+	{{"one/notation-one", "exec", 1}},
+	{{"one/notation-one", "exec", 1}, {"two", "dir", 0}, {"a.file", "file", 1}, {"notation-loose", "exec", 1}},
+	{{"real", "dir", 0}, {"linkdir", "symdir", 0}, {"linkfile", "symfile", 0}, {"zfile", "file", 1}},
+	{{"deep/inner/notation-inner", "exec", 1}, {"deep/notation-deep", "exec", 1}, {"linkdir", "symdir", 0}},
+	{{"..a", "dir", 0}, {"...", "dir", 0}, {"a b", "dir", 0}, {"a\\b", "dir", 0}, {"\u65e5\u672c", "dir", 0}, {"-", "dir", 0}, {" ", "dir", 0}},
+	{{"B", "dir", 0}, {"a", "dir", 0}, {"C/x/y", "dir", 0}, {"b", "symdir", 0}, {"A", "file", 1}},
+}
+
+// linkShape: a plugin root that is not the directory it names but leads to it through symbolic links.
+type linkShape struct {
+	tag   string
+	root  string      // what dir.NewSysFS is handed
+	cwd   string      // working directory when root is relative
+	real  string      // the directory the root IS
+	links [][2]string // link path, target (directories of the world, or further links)
+}
+
+var linkShapes = []linkShape{
+	// ~/.config/notation/plugins (or the whole configuration directory) kept on another volume / in a dotfiles checkout
+	{"root-is-link", "/cfg/plugins", "", "/vol/x/plugins", [][2]string{{"/cfg/plugins", "/vol/x/plugins"}}},
+	{"root-is-link-trailing-slash", "/cfg/plugins/", "", "/vol/x/plugins", [][2]string{{"/cfg/plugins", "/vol/x/plugins"}}},
+	{"ancestor-is-link", "/cfg/notation/plugins", "", "/vol/x/plugins", [][2]string{{"/cfg/notation", "/vol/x"}}},
+	{"chain-of-links", "/cfg/plugins", "", "/vol/x/plugins", [][2]string{{"/cfg/plugins", "/cfg/current"}, {"/cfg/current", "/vol/x/plugins"}}},
+	{"shallow-link-to-deep-root", "/p", "", "/vol/a/b/c/plugins", [][2]string{{"/p", "/vol/a/b/c/plugins"}}},
+	{"deep-link-to-shallow-root", "/h/u/.config/notation/plugins", "", "/pl", [][2]string{{"/h/u/.config/notation/plugins", "/pl"}}},
+	{"link-next-to-its-target", "/a/plugins", "", "/a/plugins.d", [][2]string{{"/a/plugins", "/a/plugins.d"}}},
+	{"ancestor-and-root-are-links", "/cfg/notation/plugins", "", "/vol/y/pl", [][2]string{{"/cfg/notation", "/vol/x"}, {"/vol/x/plugins", "/vol/y/pl"}}},
+	{"relative-root-is-link", "plugins", "/h/u/w/d", "/vol/x/plugins", [][2]string{{"/h/u/w/d/plugins", "/vol/x/plugins"}}},
+}
+
+// linkedWorld: the world of baseWorld around the PHYSICAL root, the links, and - because the manager
+// joins names lexically into the root it was handed - victims next to the ancestors of the handed
+// root and sentinels where an unguarded join into the handed root would land.
+func linkedWorld(sh linkShape, name string) *world {
+	w := baseWorld(sh.real, name)
+	for _, l := range sh.links {
+		w.putLink(l[0], l[1])
 	}
+	if sh.cwd != "" {
+		w.dirAll(sh.cwd)
+	}
+	hc := absRoot(sh.cwd, sh.root)
+	for a := path.Dir(hc); ; a = path.Dir(a) {
+		w.put(path.Join(a, "victim", "notation-victim"), "exec", 7)
+		w.put(path.Join(a, "victim", "data"), "file", 1)
+		if a == "/" {
+			break
+		}
+	}
+	plant(w, hc, name)
+	return w
+}
+
+// linkedRootCases: the configured plugin root is a symbolic link, lies behind a linked ancestor, or is
+// reached through a chain of links. Every system call of the manager follows such links, so all five
+// entry points must behave as on the directory the links lead to: the listing is that of the physical
+// root (a walker that lstats its starting point reports nothing), an installed plugin is found and
+// runs, install / uninstall change <physical root>/<name> only - and the links themselves stay what
+// they are. Also: a root link that dangles or leads to a file (nothing listed, nothing found).
+func (e *env) linkedRootCases(full bool) error {
+	for si, sh := range linkShapes {
+		tag := "linked-root=" + sh.tag
+		// listing
+		for _, es := range listEntries {
+			w := linkedWorld(sh, "good")
+			for _, n := range es {
+				w.put(path.Join(sh.real, n.Path), n.Kind, n.Ver)
+			}
+			if err := e.runCase(Input{Op: "list", Root: sh.root, Cwd: sh.cwd, FS: w.list()}, tag); err != nil {
+				return err
+			}
+		}
+		// lookup, verification, uninstall
+		names := []string{"my.plugin", "plugins", "..", "../victim", "a\\b", path.Base(path.Dir(sh.real))}
+		states := []string{"absent", "plugin", "pluginWithSiblings", "dirOnly", "exeIsSymexec", "exeIsData", "nameIsSymdir", "leftoverLinks"}
+		for ni, name := range names {
+			for vi, st := range states {
+				if !validName(name) && vi > 0 {
+					continue
+				}
+				for oi, op := range []string{"get", "verify", "uninstall"} {
+					if !full && sh.cwd != "" && (ni+vi+oi)%2 == 1 {
+						continue
+					}
+					w := linkedWorld(sh, name)
+					if validName(name) {
+						applyVariant(w, sh.real, name, st, 3)
+					}
+					if err := e.runCase(Input{Op: op, Root: sh.root, Cwd: sh.cwd, Name: name, FS: w.list()}, tag, "variant="+st); err != nil {
+						return err
+					}
+				}
+			}
+		}
+		// install from a file and from a directory, over nothing / a plugin / a left-over directory
+		for _, name := range []string{"my.plugin", "..", "a\\b"} {
+			for xi, ex := range []string{"absent", "plugin", "leftoverLinks", "pluginWithSiblings"} {
+				for ri, route := range []string{"file", "dir"} {
+					for _, overwrite := range []bool{false, true} {
+						if !full && (sh.cwd != "" || xi > 1) && (si+xi+ri)%2 == 1 {
+							continue
+						}
+						w := linkedWorld(sh, name)
+						if validName(name) {
+							applyVariant(w, sh.real, name, ex, 1)
+						}
+						src := "/dl/notation-" + name
+						if route == "file" {
+							w.put(src, "exec", 2)
+						} else {
+							src = "/dl/unpacked"
+							w.put(src+"/notation-"+name, "exec", 2)
+							w.put(src+"/LICENSE", "file", 2)
+						}
+						in := Input{Op: "install", Root: sh.root, Cwd: sh.cwd, Name: name, Src: src, Overwrite: overwrite, FS: w.list()}
+						if err := e.runCase(in, tag, "install-route="+route); err != nil {
+							return err
+						}
+					}
+				}
+			}
+		}
+		// histories on one manager: what an installation through the link leaves is found, listed, removed
+		type hist struct {
+			h  []string
+			op string
+		}
+		hists := []hist{{[]string{"install"}, "get"}, {[]string{"install"}, "list"}, {[]string{"install"}, "uninstall"}, {[]string{"install", "uninstall"}, "list"},
+			{[]string{"uninstall"}, "list"}, {[]string{"get"}, "install"}, {[]string{"install", "touchSrc"}, "verify"}, {[]string{"uninstall", "install"}, "get"}}
+		for hi, h := range hists {
+			for pi, present := range []string{"absent", "plugin"} {
+				if !full && (si+hi+pi)%2 == 1 && h.op != "list" {
+					continue
+				}
+				const name = "my.plugin"
+				w := linkedWorld(sh, name)
+				applyVariant(w, sh.real, name, present, 1)
+				src := "/dl/notation-" + name
+				w.put(src, "exec", 2)
+				in := Input{Op: h.op, Root: sh.root, Cwd: sh.cwd, Name: name, Src: src, Overwrite: hi%2 == 0, FS: w.list(), History: h.h}
+				if err := e.runCase(in, tag, "history="+strings.Join(h.h, ">")+">["+h.op+"]"); err != nil {
+					return err
+				}
+			}
+		}
+	}
+	// the root link leads nowhere, or to a file: nothing is listed, nothing found, nothing removed
+	for _, kind := range []string{"symnone", "symfile"} {
+		for _, root := range []string{"/cfg/plugins", "/cfg/plugins/"} {
+			for _, name := range []string{"", "my.plugin", "..", "../victim"} {
+				for _, op := range []string{"list", "get", "verify", "uninstall"} {
+					if (op == "list") != (name == "") {
+						continue
+					}
+					if op == "list" && kind == "symfile" {
+						continue // a root that is no directory: List answers ENOTDIR with an error; the property is silent about it
+					}
+					w := newWorld()
+					w.put("/cfg/plugins", kind, 0)
+					w.put("/cfg/victim/notation-victim", "exec", 7)
+					w.put("/victim/notation-victim", "exec", 7)
+					w.put("/outside/victim/notation-victim", "exec", 7)
+					if err := e.runCase(Input{Op: op, Root: root, Name: name, FS: w.list()}, "linked-root=root-link-is-"+kind); err != nil {
+						return err
+					}
+				}
+			}
+		}
+	}
+	return nil
+}
+
+func (e *env) listCases() error {
 	for _, root := range roots {
-		for _, es := range entries {
+		for _, es := range listEntries {
 			w := baseWorld(root, "good")
 			rc := path.Clean(root)
 			for _, n := range es {
@@ -1466,6 +1683,14 @@ func Run(c *common.Ctx) error {
 			}
 		}
 		c.Note("sandboxes on /dev/shm")
+	}
+	// executed scripts are reported by their physical directory (see physical): so must the sandboxes be
+	if p, perr := filepath.EvalSymlinks(e.work); perr == nil {
+		e.work = p
+	} else if perr = os.MkdirAll(e.work, 0o755); perr == nil {
+		if p, perr = filepath.EvalSymlinks(e.work); perr == nil {
+			e.work = p
+		}
 	}
 	e.chain = common.MakeChain(common.ChainOpts{Tag: "c16"})
 	e.other = common.MakeChain(common.ChainOpts{Tag: "c16 other"})
@@ -1539,6 +1764,10 @@ func Run(c *common.Ctx) error {
 	if err := e.concurrentCases(c.Thorough()); err != nil {
 		return err
 	}
+	// 4e. the plugin root is, or lies behind, a symbolic link
+	if err := e.linkedRootCases(c.Thorough()); err != nil {
+		return err
+	}
 	// 5. random names from the grammar
 	nRandom := 1200
 	if c.Thorough() {
@@ -1560,7 +1789,7 @@ func Run(c *common.Ctx) error {
 	if err := e.execAll(); err != nil {
 		return err
 	}
-	c.Note("names: %d hostile shapes (../ runs of depth 1..4 x tails x prefixes, absolute-looking, dot/empty, separators, backslash, NUL, very long) and %d acceptable ones, against %d roots (depth 1..5, clean and unclean), through Get(+GetMetadata), Uninstall, verifier.Verify (real CLIManager, signature carrying the name), Install from file and from directory, List; %d random names from the grammar. Sentinel executables and directories are planted where an unguarded join would land; the whole case directory is snapshotted before and after.",
-		len(hostile), len(acceptable), len(roots), nRandom)
+	c.Note("names: %d hostile shapes (../ runs of depth 1..4 x tails x prefixes, absolute-looking, dot/empty, separators, backslash, NUL, very long) and %d acceptable ones, against %d roots (depth 1..5, clean and unclean), through Get(+GetMetadata), Uninstall, verifier.Verify (real CLIManager, signature carrying the name), Install from file and from directory, List; %d shapes of a plugin root reached through symbolic links (the root itself, an ancestor, a chain, relative, dangling, to a file) through all five entry points and histories; %d random names from the grammar. Sentinel executables and directories are planted where an unguarded join would land; the whole case directory is snapshotted before and after.",
+		len(hostile), len(acceptable), len(roots), len(linkShapes)+2, nRandom)
 	return nil
 }
